@@ -1,3 +1,427 @@
 package main
 
-func checkMain(args []string) int { return 2 }
+import (
+	"encoding/json"
+	"flag"
+	"fmt"
+	"os"
+	"path/filepath"
+	"sort"
+	"strconv"
+	"strings"
+	"time"
+
+	"golang.org/x/tools/go/ssa"
+)
+
+// CheckCfg: /verif/checks/<id>.json
+type CheckCfg struct {
+	Property string   `json:"property"`
+	Contract []string `json:"contract"` // functions verified against their contracts (+ safety sweep)
+	Sweep    []string `json:"sweep"`    // functions swept for panic freedom only (no contract needed)
+	SweepFiles []string `json:"sweep_files"` // every function declared in these files is swept
+	NoSweep  []string `json:"nosweep"`  // functions verified against contracts without safety obligations
+	Reset    []ResetCfg `json:"reset"`
+	Commute  []string `json:"commute"`  // functions whose map-range loops get commutation obligations
+	Floor    int      `json:"floor"`    // minimum number of obligations (vacuity guard)
+	QuickSec int      `json:"quick_sec"`
+	ThoroughSec int   `json:"thorough_sec"`
+	Scope    string   `json:"scope"`    // which sentences of the statement the obligations cover
+	NotDecided []string `json:"not_decided"`
+	Bounded  []string `json:"bounded"`
+	Assumptions []string `json:"assumptions"`
+}
+
+type ResetCfg struct {
+	Constructor string   `json:"constructor"`
+	Listener    string   `json:"listener"` // type name whose methods define the read set
+	StaleOK     map[string]string `json:"stale_ok"`
+}
+
+type KnownFinding struct {
+	Property   string `json:"property"`
+	Obligation string `json:"obligation"`
+	What       string `json:"what"`
+	Witness    string `json:"witness,omitempty"`
+	Status     string `json:"status,omitempty"` // "" (open) or "fixed"
+	Commit     string `json:"commit,omitempty"`
+}
+
+type Evidence struct {
+	PropertyID string                 `json:"property_id"`
+	Tier       string                 `json:"tier"`
+	Seed       int                    `json:"seed"`
+	Level      string                 `json:"level"`
+	Coverage   map[string]interface{} `json:"coverage"`
+	Assumptions []string              `json:"assumptions"`
+	WallS      float64                `json:"wall_s"`
+	Violations int                    `json:"violations"`
+}
+
+func loadKnown() []KnownFinding {
+	var out struct {
+		Findings []KnownFinding `json:"findings"`
+	}
+	b, err := os.ReadFile(filepath.Join(verifDir, "known_findings.json"))
+	if err != nil {
+		return nil
+	}
+	if err := json.Unmarshal(b, &out); err != nil {
+		fmt.Fprintln(os.Stderr, "known_findings.json:", err)
+	}
+	return out.Findings
+}
+
+func checkMain(args []string) int {
+	t0 := time.Now()
+	fs := flag.NewFlagSet("check", flag.ExitOnError)
+	tier := fs.String("tier", "", "quick|thorough")
+	keep := fs.String("keep", "", "keep SMT scripts in this directory")
+	verbose := fs.Bool("v", false, "print every obligation")
+	if len(args) < 1 {
+		fmt.Fprintln(os.Stderr, "usage: vcgo check <property> [--tier quick|thorough]")
+		return 2
+	}
+	prop := args[0]
+	fs.Parse(args[1:])
+	if *tier == "" {
+		*tier = os.Getenv("VERIF_TIER")
+	}
+	if *tier == "" {
+		*tier = "quick"
+	}
+	seed, _ := strconv.Atoi(os.Getenv("VERIF_SEED"))
+	var cfg CheckCfg
+	b, err := os.ReadFile(filepath.Join(verifDir, "checks", prop+".json"))
+	if err != nil {
+		fmt.Fprintln(os.Stderr, "CHECK-BROKEN", err)
+		return 2
+	}
+	if err := json.Unmarshal(b, &cfg); err != nil {
+		fmt.Fprintln(os.Stderr, "CHECK-BROKEN", err)
+		return 2
+	}
+	w, err := loadWorld([]string{"./..."})
+	if err != nil {
+		fmt.Println("CHECK-BROKEN: /repo does not load:", err)
+		return 2
+	}
+	defer w.Close()
+	ss, err := loadSpecs(w)
+	if err != nil {
+		fmt.Println("CHECK-BROKEN: CONTRACT-ERROR", err)
+		return 2
+	}
+	broken := []string{}
+	var results []*FuncResult
+	seen := map[*ssa.Function]bool{}
+	add := func(name string, sweep bool, needContract bool) {
+		fn, err := w.find(name)
+		if err != nil {
+			broken = append(broken, err.Error())
+			return
+		}
+		if seen[fn] {
+			return
+		}
+		seen[fn] = true
+		if needContract && w.contractFor(ss, fn) == nil {
+			broken = append(broken, "no contract found for "+name)
+			return
+		}
+		results = append(results, verifyFunc(w, ss, fn, sweep))
+	}
+	for _, n := range cfg.Contract {
+		add(n, true, true)
+	}
+	for _, n := range cfg.NoSweep {
+		add(n, false, true)
+	}
+	for _, n := range cfg.Sweep {
+		add(n, true, false)
+	}
+	for _, f := range cfg.SweepFiles {
+		for _, fn := range w.funcsInFile(f) {
+			if !seen[fn] {
+				seen[fn] = true
+				results = append(results, verifyFunc(w, ss, fn, true))
+			}
+		}
+	}
+	for _, rc := range cfg.Reset {
+		r, err := resetObligations(w, ss, rc)
+		if err != nil {
+			broken = append(broken, err.Error())
+			continue
+		}
+		results = append(results, r)
+	}
+	for _, n := range cfg.Commute {
+		fn, err := w.find(n)
+		if err != nil {
+			broken = append(broken, err.Error())
+			continue
+		}
+		results = append(results, commuteObligations(w, ss, fn)...)
+	}
+	for _, r := range results {
+		broken = append(broken, r.Errors...)
+	}
+	sec := cfg.QuickSec
+	if sec == 0 {
+		sec = 10
+	}
+	all := false
+	if *tier == "thorough" {
+		sec = cfg.ThoroughSec
+		if sec == 0 {
+			sec = 60
+		}
+		all = true
+	}
+	dir := *keep
+	if dir == "" {
+		dir = filepath.Join(w.Scratch, "smt")
+	}
+	os.MkdirAll(dir, 0755)
+	solveAll(results, dir, sec, all, 12)
+
+	// verdict
+	known := loadKnown()
+	isKnown := func(name string) *KnownFinding {
+		for i := range known {
+			if known[i].Property == prop && known[i].Obligation == name && known[i].Status != "fixed" {
+				return &known[i]
+			}
+		}
+		return nil
+	}
+	var total, discharged, covers int
+	bySolver := map[string]int{}
+	var solverTime, maxT float64
+	var failing []*Obligation
+	var knownHit []string
+	var samples []interface{}
+	fuc, swept := []string{}, []string{}
+	inlined, havoc, trusted, exts, ctrs, axs := map[string]bool{}, map[string]bool{}, map[string]string{}, map[string]bool{}, map[string]bool{}, map[string]bool{}
+	assump := map[string]bool{}
+	oos := map[string]bool{}
+	encOf := map[*Obligation]*FuncResult{}
+	for _, r := range results {
+		if r.Contract != nil {
+			fuc = append(fuc, r.Name)
+		} else {
+			swept = append(swept, r.Name)
+		}
+		if r.Enc != nil {
+			for k := range r.Enc.inlined {
+				inlined[k] = true
+			}
+			for k := range r.Enc.havoced {
+				havoc[k] = true
+			}
+			for k, v := range r.Enc.trusted {
+				trusted[k] = v
+			}
+			for k := range r.Enc.extUsed {
+				exts[k] = true
+			}
+			for k := range r.Enc.ctrUsed {
+				ctrs[k] = true
+			}
+			for k := range r.Enc.axUsed {
+				axs[k] = true
+			}
+			for k := range r.Enc.assumps {
+				assump[k] = true
+			}
+		}
+		for _, s := range r.OutOfSubset {
+			oos[r.Name+": "+s] = true
+		}
+		for _, o := range r.Obls {
+			encOf[o] = r
+			if o.Cover {
+				covers++
+				if !o.discharged() {
+					failing = append(failing, o)
+				}
+				continue
+			}
+			if kf := isKnown(o.Name); kf != nil {
+				if o.discharged() {
+					fmt.Printf("NOTE: known finding no longer reproduces: property=%s %s\n", prop, o.Name)
+				} else {
+					knownHit = append(knownHit, fmt.Sprintf("KNOWN-FINDING: property=%s %s — %s", prop, o.Name, kf.What))
+				}
+				continue
+			}
+			total++
+			if o.Result != nil {
+				solverTime += o.Result.Seconds
+				if o.Result.Seconds > maxT {
+					maxT = o.Result.Seconds
+				}
+			}
+			if o.discharged() {
+				discharged++
+				bySolver[o.Result.Solver]++
+				if len(samples) < 6 {
+					samples = append(samples, map[string]interface{}{"obligation": o.Name, "clause": trunc(o.Text, 160), "result": o.Result.Status, "solver": o.Result.Solver, "seconds": round3(o.Result.Seconds)})
+				}
+			} else {
+				failing = append(failing, o)
+			}
+		}
+	}
+	if total < cfg.Floor {
+		broken = append(broken, fmt.Sprintf("only %d obligations generated, floor is %d (vacuity guard)", total, cfg.Floor))
+	}
+	sort.Strings(knownHit)
+	for _, k := range knownHit {
+		fmt.Println(k)
+	}
+	if *verbose {
+		for _, r := range results {
+			for _, o := range r.Obls {
+				st := "-"
+				if o.Result != nil {
+					st = o.Result.Status
+				}
+				fmt.Printf("  %-8s %s   %s\n", st, o.Name, trunc(o.Text, 90))
+			}
+		}
+	}
+	// violations
+	replayDir := filepath.Join(verifDir, "evidence", "replay", prop)
+	os.RemoveAll(replayDir)
+	nviol := 0
+	sortObls(failing)
+	for _, o := range failing {
+		nviol++
+		os.MkdirAll(replayDir, 0755)
+		path := filepath.Join(replayDir, clean(strings.TrimPrefix(o.Name, ""))+".json")
+		rep := buildReplay(w, encOf[o], o, dir)
+		rb, _ := json.MarshalIndent(rep, "", " ")
+		os.WriteFile(path, rb, 0644)
+		suffix := ""
+		if !rep.Confirmed {
+			suffix = " no-failing-input-found"
+		}
+		fmt.Printf("VIOLATION property=%s replay=%s%s\n", prop, path, suffix)
+		fmt.Printf("  obligation %s [%s] at %s:%d: %s\n", o.Name, statusOf(o), filepath.Base(o.Pos.Filename), o.Pos.Line, trunc(o.Text, 140))
+	}
+	// evidence
+	ev := Evidence{PropertyID: prop, Tier: *tier, Seed: seed, Level: "proof", WallS: round3(time.Since(t0).Seconds()), Violations: nviol}
+	tb := []string{"vcgo (this VC generator: go/ssa -> SMT-LIB), go/ssa lowering, z3 4.8.12 / z3 5.1.0 / cvc5 1.0.3"}
+	for _, k := range sortedKeys(exts) {
+		tb = append(tb, "external contract (assumed): "+k)
+	}
+	for _, k := range sortedKeys(axs) {
+		tb = append(tb, "prelude axiom: "+k)
+	}
+	for _, k := range sortedKeys(trusted) {
+		tb = append(tb, "trusted contract (body not verified): "+k+" — "+trusted[k])
+	}
+	sort.Strings(fuc)
+	sort.Strings(swept)
+	if len(samples) == 0 {
+		samples = append(samples, "no obligation discharged in this run")
+	}
+	ev.Coverage = map[string]interface{}{
+		"obligations": total, "discharged": discharged,
+		"checker_cmd":  fmt.Sprintf("bin/vcgo check %s --tier %s", prop, *tier),
+		"trusted_base": tb,
+		"functions_under_contract": fuc, "functions_swept": swept,
+		"by_solver": bySolver, "solver_time_s": round3(solverTime), "max_obligation_s": round3(maxT),
+		"inlined": sortedKeys(inlined), "havoc": sortedKeys(havoc), "callee_contracts_used": sortedKeys(ctrs),
+		"cover_checks": covers, "samples": samples, "known_findings": knownHit,
+		"out_of_subset": sortedKeys(oos), "scope": cfg.Scope, "not_decided": cfg.NotDecided, "bounded": cfg.Bounded,
+		"solver_timeout_s": sec,
+	}
+	for _, a := range cfg.Assumptions {
+		assump[a] = true
+	}
+	assump["machine integers are treated as mathematical integers (no overflow modelling)"] = true
+	assump["strings are byte sequences; UTF-8 structure only through RuneCount axioms"] = true
+	assump["slices are values (length + contents); capacity and backing-array sharing are not modelled"] = true
+	ev.Assumptions = sortedKeys(assump)
+	os.MkdirAll(filepath.Join(verifDir, "evidence"), 0755)
+	eb, _ := json.MarshalIndent(ev, "", " ")
+	os.WriteFile(filepath.Join(verifDir, "evidence", prop+".json"), eb, 0644)
+
+	fmt.Printf("%s [%s]: %d obligations, %d discharged, %d known findings, %d cover checks, %d functions, %.1fs\n", prop, *tier, total, discharged, len(knownHit), covers, len(results), time.Since(t0).Seconds())
+	if len(broken) > 0 {
+		for _, b := range broken {
+			fmt.Println("CHECK-BROKEN:", b)
+		}
+		return 2
+	}
+	if nviol > 0 {
+		return 1
+	}
+	return 0
+}
+
+func statusOf(o *Obligation) string {
+	if o.Result == nil {
+		return "not-run"
+	}
+	if o.Cover && o.Result.Status == "unsat" {
+		return "vacuous"
+	}
+	return o.Result.Status
+}
+
+func round3(f float64) float64 { return float64(int(f*1000+0.5)) / 1000 }
+
+// funcsInFile: every function (and method, and closure) declared in a repo file (path relative to /repo)
+func (w *World) funcsInFile(rel string) []*ssa.Function {
+	var out []*ssa.Function
+	abs := filepath.Join(repoDir, rel)
+	for _, fn := range w.allRepoFuncs() {
+		if fn.Synthetic != "" || fn.Blocks == nil {
+			continue
+		}
+		p := w.Prog.Fset.Position(fn.Pos())
+		if p.Filename == abs {
+			out = append(out, fn)
+		}
+	}
+	sort.Slice(out, func(i, j int) bool { return fnFull(out[i]) < fnFull(out[j]) })
+	return out
+}
+
+// Replay file content
+type Replay struct {
+	Property   string            `json:"property,omitempty"`
+	Obligation string            `json:"obligation"`
+	Class      string            `json:"class"`
+	Function   string            `json:"function"`
+	Clause     string            `json:"clause"`
+	Position   string            `json:"position"`
+	Status     string            `json:"status"` // refuted-and-replayed | refuted-not-replayed | undischarged
+	Solvers    map[string]string `json:"solvers"`
+	SolverOutput string          `json:"solver_output,omitempty"`
+	Inputs     map[string]interface{} `json:"inputs,omitempty"`
+	Observed   string            `json:"observed,omitempty"`
+	Confirmed  bool              `json:"confirmed"`
+	Note       string            `json:"note,omitempty"`
+}
+
+func buildReplay(w *World, r *FuncResult, o *Obligation, dir string) *Replay {
+	rep := &Replay{Obligation: o.Name, Class: o.Class, Function: o.Fn, Clause: o.Text, Position: fmt.Sprintf("%s:%d", o.Pos.Filename, o.Pos.Line), Status: "undischarged"}
+	if o.Result != nil {
+		rep.Solvers = o.Result.Others
+		rep.SolverOutput = o.Result.Output
+		if o.Cover {
+			rep.Note = "vacuity guard: the assumptions in force make this point unreachable"
+			return rep
+		}
+		if (o.Result.Status == "sat" || o.Result.Status == "unknown" || o.Result.Status == "timeout") && r != nil && r.Enc != nil {
+			rep.Status = "refuted-not-replayed"
+			tryReplay(w, r, o, dir, rep)
+		}
+	}
+	return rep
+}
